@@ -634,13 +634,117 @@ theorem fixed_F_C13_3 :
       (Spec.modelHistory { cfgSmallWindow with fixRstAfterClose := true } 2 fixed_dataAfterClose) = none := by
   decide
 
+/-! ## The timer of the reclamation bound -/
+
+/-- `n` sweeps of `check_retx` over a socket that hears nothing (no ACK progress, nothing else
+    touches the TCB between the sweeps). -/
+def silentTicks (thr max : Nat) : Nat → Tcb → Tcb
+  | 0, t => t
+  | n + 1, t => silentTicks thr max n (t.retxTick thr max).1
+
+/-- `i` sweeps after the counters were last reset. -/
+def TickInv (thr : Nat) (t : Tcb) (i : Nat) : Prop :=
+  t.egressSinceAck < thr ∧ t.retxAttempts * thr + t.egressSinceAck = i ∧ t.isHandshake = false
+
+theorem tick_step (thr max : Nat) (t : Tcb) (i : Nat) (h : TickInv thr t i) (hi : i + 1 < thr * (max + 1)) :
+    (t.retxTick thr max).2 ≠ .abort ∧ TickInv thr (t.retxTick thr max).1 (i + 1) := by
+  obtain ⟨he, hm, hh⟩ := h
+  unfold Tcb.retxTick
+  dsimp only
+  by_cases h1 : t.egressSinceAck + 1 < thr
+  · rw [if_pos h1]
+    exact ⟨by simp, h1, by show t.retxAttempts * thr + (t.egressSinceAck + 1) = i + 1; omega, hh⟩
+  · rw [if_neg h1]
+    have hee : t.egressSinceAck + 1 = thr := by omega
+    have hlt : t.retxAttempts < max := by
+      have h2 : (t.retxAttempts + 1) * thr < (max + 1) * thr := by
+        rw [Nat.succ_mul, Nat.mul_comm (max + 1) thr]; omega
+      have := Nat.lt_of_mul_lt_mul_right h2
+      omega
+    have hna : ¬ (t.retxAttempts ≥ max) := by omega
+    rw [if_neg hna]
+    split
+    · rename_i hc
+      have : t.isHandshake = true := hc
+      rw [hh] at this; cases this
+    · refine ⟨by simp, by show 0 < thr; omega, ?_, hh⟩
+      show (t.retxAttempts + 1) * thr + 0 = i + 1
+      rw [Nat.succ_mul]; omega
+
+theorem tick_abort (thr max : Nat) (t : Tcb) (h : TickInv thr t (thr * (max + 1) - 1)) (hthr : 1 ≤ thr) :
+    (t.retxTick thr max).2 = .abort := by
+  obtain ⟨he, hm, _⟩ := h
+  have hexp : thr * (max + 1) = max * thr + thr := by rw [Nat.mul_succ, Nat.mul_comm]
+  have ha : t.retxAttempts = max := by
+    rcases Nat.lt_trichotomy t.retxAttempts max with hlt | heq | hgt
+    · exfalso
+      have : (t.retxAttempts + 1) * thr ≤ max * thr := Nat.mul_le_mul_right thr hlt
+      rw [Nat.succ_mul] at this
+      omega
+    · exact heq
+    · exfalso
+      have : (max + 1) * thr ≤ t.retxAttempts * thr := Nat.mul_le_mul_right thr hgt
+      rw [Nat.succ_mul] at this
+      omega
+  have hee : t.egressSinceAck + 1 = thr := by rw [ha] at hm; omega
+  unfold Tcb.retxTick
+  dsimp only
+  have h1 : ¬ (t.egressSinceAck + 1 < thr) := by omega
+  rw [if_neg h1, if_pos (by omega : t.retxAttempts ≥ max)]
+
+/-- **The timer behind the reclamation bound, exactly.** A socket in the retransmit sweep whose
+    counters were reset (`egress_since_ack = retx_attempts = 0`: at its last ACK progress — for an
+    application-closed `FIN_WAIT2` socket that is the ACK of its FIN) and that then hears nothing is
+    left alone for `retx_threshold · (retx_max + 1) − 1` sweeps and aborted by the next one — never
+    earlier, never later; and that is within the `reclaimBound` the reclamation oracle waits. The
+    abort yields `Closed` (`C13_partial`), `reap_closed` removes a `Closed` socket whose application
+    handle is gone in the same egress (`reap_closed_complete`), `remove` clears all three indexes
+    (`remove_clears`). -/
+theorem silent_timer_exact (thr max : Nat) (hthr : 1 ≤ thr) (t : Tcb) (hh : t.isHandshake = false)
+    (he : t.egressSinceAck = 0) (ha : t.retxAttempts = 0) :
+    (∀ j, j < thr * (max + 1) - 1 → ((silentTicks thr max j t).retxTick thr max).2 ≠ .abort) ∧
+    ((silentTicks thr max (thr * (max + 1) - 1) t).retxTick thr max).2 = .abort ∧
+    (((silentTicks thr max (thr * (max + 1) - 1) t).retxTick thr max).1.abort false).state = .closed ∧
+    thr * (max + 1) ≤ Spec.reclaimBound { retxThreshold := thr, retxMax := max } := by
+  have key : ∀ (n : Nat) (u : Tcb) (i : Nat), TickInv thr u i → i + n ≤ thr * (max + 1) - 1 →
+      TickInv thr (silentTicks thr max n u) (i + n) := by
+    intro n
+    induction n with
+    | zero => intro u i hu _; exact hu
+    | succ n ihn =>
+      intro u i hu hle
+      have hs := tick_step thr max u i hu (by omega)
+      have := ihn (u.retxTick thr max).1 (i + 1) hs.2 (by omega)
+      simp only [silentTicks]
+      have e : i + 1 + n = i + (n + 1) := by omega
+      rw [e] at this
+      exact this
+  have h0 : TickInv thr t 0 := ⟨by omega, by rw [ha, he]; simp, hh⟩
+  have hinv : ∀ j, j ≤ thr * (max + 1) - 1 → TickInv thr (silentTicks thr max j t) j := by
+    intro j hj
+    have := key j t 0 h0 (by omega)
+    simpa using this
+  refine ⟨?_, ?_, rfl, ?_⟩
+  · intro j hj
+    exact (tick_step thr max _ j (hinv j (by omega)) (by omega)).1
+  · exact tick_abort thr max _ (hinv _ (Nat.le_refl _)) hthr
+  · unfold Spec.reclaimBound
+    dsimp only
+    rw [Nat.mul_succ, Nat.succ_mul, Nat.mul_succ, Nat.mul_succ]
+    omega
+
+example : silentTicks 3 5 17 { state := .finWait2, peer := ⟨.host 1 false, 9⟩, sndNxt := 7, sndUna := 7, sndMax := 7,
+                               sndWnd := 9, rcvNxt := 5 } =
+    { state := .finWait2, peer := ⟨.host 1 false, 9⟩, sndNxt := 7, sndUna := 7, sndMax := 7, sndWnd := 9, rcvNxt := 5,
+      egressSinceAck := 2, retxAttempts := 5 } := by decide
+
 /-- **What is proved of reclamation** (`C13_partial`): every path that finishes a connection ends
     in a state `reap_closed` collects, and collection is complete. (a) An acknowledged FIN moves
     `LastAck` / `Closing` to `Closed`, and a FIN received in `FinWait2` moves to `Closed`; (b) an
     abort (RST, retransmit exhaustion) always yields `Closed`; (c) after `reap_closed` no dropped
     socket in `Closed` / reset state remains (`reap_closed_complete`), and `remove` clears all three
     indexes (`remove_clears`); accept-once is `accept_once`. Missing for the full statement: that every dropped socket *reaches*
-    one of these states within the bound — false on the faithful model (F-C13-1: never-accepted
+    one of these states within the bound (the timer itself is exact: `silent_timer_exact`) — false on the faithful model (F-C13-1: never-accepted
     children are not `fd_closed`; F-C13-2 / F-C13-3: a lingering socket with nothing in flight waits
     forever, for a lost RST or behind a window that a closed peer will never reopen). -/
 theorem C13_partial :
